@@ -1071,6 +1071,21 @@ spec fn hrn_trace(a: World, b: World, script: Seq<Seq<char>>, paths: Seq<Seq<cha
             }
         }
 //@ end
+
+// closure #1 of clean(): the body of a rule's clean thread -- it hands exactly its captures to clean_targets and returns its verdict
+// unchanged (the spawn loop around it is unit G; the join loop is unit F)
+//@ extract build.rs fn clean closure 1
+//@ props C05 C08 C09 C10
+//@ sig fn clean_thread<SystemType : System>(blob: Blob, mut system_clone: SystemType, mut local_cache_clone: SysCache<SystemType>, Tracked(w): Tracked<&mut World>) -> (res: Result<(), WorkError>)
+//@ spec
+    requires local_cache_clone.wf(*old(w)), inv(*old(w)), blob.wf(*old(w)), blob.all_rem_ok(),
+    ensures
+        inv(*final(w)), kept(*old(w), *final(w)),                                                       //# O-D-clean-thread-kept [C08]
+        frame_except(*old(w), *final(w), blob.paths()),                                                 //# O-D-clean-thread-frame [C09]
+        res is Ok ==> blob.all_absent(*final(w)),                                                       //# O-D-clean-thread-removed [C10]
+        res is Ok ==> forall|k: int| 0 <= k < blob.file_infos@.len() && old(w).files.contains_key(#[trigger] blob.file_infos@[k].path@) ==>   //# O-D-clean-thread-cached [C10]
+            in_cache(*final(w), sha256(old(w).files[blob.file_infos@[k].path@].content)),
+//@ end
 // no other existing target of the blob has the same content hash as target k
 spec fn uniq_content_at(w: World, b: Blob, k: int) -> bool {
     forall|j: int| 0 <= j < b.file_infos@.len() && j != k && w.files.contains_key(#[trigger] b.file_infos@[j].path@) ==> sha256(w.files[b.file_infos@[j].path@].content) != sha256(w.files[b.file_infos@[k].path@].content)
